@@ -38,14 +38,32 @@ def run_traj(subj, sp, plan, seed, lock=None, obs_out=None):
     np.random.seed(seed)
     env.reset()
     rec = []
+    arrays = {}
     for op in plan:
         if op[0] == "reset":
             env.reset()
             rec.append(("reset", env.current_state.tensor.tobytes()))
             continue
         _, i, vec = op
-        arg = int(i) if flat else vec
-        o, r, term, trunc, info = env.step(arg)
+        if flat:
+            arg = int(i)
+        elif i % 3 == 0:
+            arg = vec                   # a Python list
+        else:
+            # one int64 array per action, re-used every time the action is
+            # taken (what an agent replaying stored actions does)
+            arg = arrays.setdefault(i, np.array(vec, dtype=np.int64))
+        try:
+            o, r, term, trunc, info = env.step(arg)
+        except Exception as e:      # noqa  a mode that raises has diverged
+            rec.append((env.current_state.tensor.tobytes(), 0.0, False,
+                        False, {"raised": type(e).__name__,
+                                "success": False,
+                                "undefined_error": False}))
+            if obs_out is not None:
+                obs_out.append(np.zeros((len(sp.addrs) + 1) *
+                                        subj.lay.width, dtype=np.float32))
+            continue
         rec.append((env.current_state.tensor.tobytes(), float(r), bool(term),
                     bool(trunc), norm_info(info)))
         if obs_out is not None:
